@@ -352,5 +352,6 @@ int main(void)
     else puts("-");
     fflush(stdout);
   }
+  free(line);
   return 0;
 }
